@@ -10,11 +10,12 @@ section
 variable [Zero R] [One R] [Add R] [Mul R] [Neg R]
 
 /-- stencil matrix of one central difference on `n` points, times `c = 1/step`:
-    interior rows `(x_{i+1} − x_{i−1})·c`, linearly extrapolated ends `2(x_1 − x_0)·c`, `2(x_{n−1} − x_{n−2})·c`;
+    interior rows `(x_{i+1} − x_{i−1})·c`, linearly extrapolated ends `2(x_1 − x_0)·c`, `2(x_{n−1} − x_{n−2})·c` (`n ≥ 2`; zero for `n = 1`);
     periodic: indices wrap around -/
 def stencilL (n : Nat) (c : R) (periodic : Bool) : Nat → Nat → R := fun i j =>
   if periodic then
     (if j = (i + 1) % n then c else 0) + (if j = (i + n - 1) % n then -c else 0)
+  else if n = 1 then 0        -- a single point: the padded fibre is `[x0, x0, x0]`, both extrapolations add 0, the difference is 0
   else if i = 0 then
     (if j = 1 then c + c else 0) + (if j = 0 then -(c + c) else 0)
   else if i + 1 = n then
